@@ -749,7 +749,8 @@ def c19_plan(driver, w, snap, ev, res):
     hs = M.heads(pre)
     devs = []
     for c in pre['prs']:
-        if c['author'] == ROBOT and c['state'] == 'OPEN' and \
+        # open or closed (somebody may have declined it by hand)
+        if c['author'] == ROBOT and \
                 M.wref_parts(c['src']) and M.wref_parts(c['src'])[1] == src:
             devs.append(['eval_pr', c['id']])
     qtips = {s for b, s in hs.items() if b.startswith('q/')}
